@@ -13,8 +13,15 @@ import (
 // spaceG enumerates all canonical edge lists with 1..m edges and at most maxNodes nodes (0 = unbounded),
 // in order of increasing depth, keeping those accepted by filter (nil = all).
 func spaceG(mMin, m, maxNodes int, filter func(in Input, a *Analysis) bool) func(emit func(Input)) {
+	return spaceGN(mMin, m, func(int) int { return 0 }, maxNodes, filter)
+}
+
+// spaceGN additionally prunes the enumeration tree to the lists with at least minNodes(d) nodes at depth d
+// (trees with d edges have exactly d+1 nodes: S(2d, d+1) lists instead of Bell(2d)).
+func spaceGN(mMin, m int, minNodes func(d int) int, maxNodes int, filter func(in Input, a *Analysis) bool) func(emit func(Input)) {
 	return func(emit func(Input)) {
 		for d := mMin; d <= m; d++ {
+			need := minNodes(d)
 			s := make([]int, 2*d)
 			var rec func(i, mx int)
 			rec = func(i, mx int) {
@@ -34,6 +41,9 @@ func spaceG(mMin, m, maxNodes int, filter func(in Input, a *Analysis) bool) func
 					nm := mx
 					if l > mx {
 						nm = l
+					}
+					if nm+1+(2*d-i-1) < need {
+						continue // cannot reach the required number of nodes any more
 					}
 					rec(i+1, nm)
 				}
